@@ -718,7 +718,9 @@ def impl_decode(C, fr, payload):
         return [[0]], None
     except Exception as e:                                  # any other exception is reported as such
         return [[9]], "raise:" + type(e).__name__
-    return [[2]] + [[idx(k), 1, v.raw_value] for k, v in r.items()], {idx(k): v.raw_value for k, v in r.items()}
+    # the property fixes WHICH signals are returned and their values, not the order of the dict (observe_at: set(keys)):
+    # canonical form = entries sorted by name, on the implementation side here and on the model side in Run_C03.run_301
+    return [[2]] + sorted([idx(k), 1, v.raw_value] for k, v in r.items()), {idx(k): v.raw_value for k, v in r.items()}
 
 
 def impl_encode(C, fr, data):
